@@ -1320,14 +1320,14 @@ void hostlist_filter_regex (hostlist_t hl, struct regex_info *re)
 
 static void list_push_hostlist (List l, hostlist_t hl)
 {
-    size_t n = 4096;
-    char *s = Malloc (n);
+    char *host;
+    hostlist_iterator_t i = hostlist_iterator_create (hl);
 
-    while ((hostlist_ranged_string (hl, n-1, s) < 0) && (n*=2 < 0x7fffff)) {
-        Realloc ((void **) &s, n);
+    while ((host = hostlist_next (i))) {
+        list_push (l, Strdup (host));
+        free (host);
     }
-
-    list_push (l, s);
+    hostlist_iterator_destroy (i);
 }
 
 
